@@ -2,6 +2,7 @@ import SignaloModel.Proofs.BridgeDeque
 import SignaloModel.Proofs.DequeMin
 import SignaloModel.Proofs.DequeSuffix
 import SignaloModel.Proofs.OwnedDeque
+import SignaloModel.Proofs.DequeExact
 /-!
 # C04 — Moving min/max/bounds equal the extrema of the last min(k,N) samples
 
@@ -10,6 +11,7 @@ The property theorems for C04: `#check` prints each statement, `#print axioms` i
 -/
 open SignaloModel
 
+#check @SignaloModel.Deque.taps_exact_run
 #check @SignaloModel.Deque.taps_length_run
 #check @SignaloModel.Deque.taps_suffixMax_run
 #check @Registry.max_registry_correct
@@ -23,6 +25,7 @@ open SignaloModel
 #check @Deque.stepU_correct
 #check @Deque.tick_rel
 
+#print axioms SignaloModel.Deque.taps_exact_run
 #print axioms SignaloModel.Deque.taps_length_run
 #print axioms SignaloModel.Deque.taps_suffixMax_run
 #print axioms Registry.max_registry_correct
